@@ -5,6 +5,7 @@ import Proofs.C13.Rs1024
 import Proofs.C13.Bits
 import Proofs.C13.Codec
 import Proofs.C13.Dispatch
+import Proofs.C13.TwoLevel
 /-!
 # C13 — mnemonics and seeds: entropy round-trips, checksums bind, thresholds recover (DESIGN.md §3 C13)
 
@@ -167,20 +168,22 @@ theorem bits_roundtrip (k : Nat) (hk : 1 ≤ k) (idx : List Nat) (hne : idx ≠ 
       indexesFromBits bits (2 ^ k) = idx :=
   indexesFromBits_bitsFromIndexes k hk idx hne hlt
 
-/-- BIP39: for every entropy of 128..256 bits in steps of 32 (leading zeros included) the sentence has
+/-- BIP39: for every entropy size the code accepts — `entropy._bits`: 128..256 bits in steps of 32 and ALSO 512 bits
+    (48 words; beyond the BIP's table, accepted by btclib) — leading zeros included, the sentence has
     ENT/32·3 words, all below 2048, and decodes back to the entropy — for any 32-byte hash -/
 theorem bip39_roundtrip (H : Bytes → Bytes) (hH : ∀ b, (H b).length = 32) (e : Bits)
-    (hL : e.length ∈ [128, 160, 192, 224, 256]) :
+    (hL : e.length ∈ Gen.Mnemonic.ENTROPY_BITS) :
     ∃ idx, bip39Indexes H e = some idx ∧ idx.length = e.length / 32 * 3 ∧ (∀ i ∈ idx, i < 2048) ∧
       bip39Entropy H idx = some e :=
-  Btc.C13.bip39_roundtrip H hH e hL
+  bip39_roundtrip_all H hH e hL
 
-/-- BIP39: a sentence of 12..24 words is accepted exactly when it is the encoding of its first ENT bits, i.e. when
-    its last ENT/32 bits equal the hash prefix -/
-theorem bip39_accepted_iff_encoding (H : Bytes → Bytes) (hH : ∀ b, (H b).length = 32) (idx : List Nat)
-    (hn : idx.length ∈ [12, 15, 18, 21, 24]) (hlt : ∀ i ∈ idx, i < 2048) (e : Bits) :
-    bip39Entropy H idx = some e ↔ bip39Indexes H e = some idx ∧ e.length = idx.length / 3 * 32 :=
-  bip39Entropy_eq_some_iff H hH idx hn hlt e
+/-- BIP39, with no side condition on the sentence: it is accepted (decoding to `e`) exactly when it has 12, 15, 18,
+    21, 24 (or 48) words and is the encoding of `e` — i.e. its last ENT/32 bits equal the hash prefix.  Every other
+    length, any index ≥ 2048, any wrong checksum bit is refused. -/
+theorem bip39_accepted_iff_encoding (H : Bytes → Bytes) (hH : ∀ b, (H b).length = 32) (idx : List Nat) (e : Bits) :
+    bip39Entropy H idx = some e ↔
+      idx.length ∈ [12, 15, 18, 21, 24, 48] ∧ bip39Indexes H e = some idx ∧ e.length = idx.length / 3 * 32 :=
+  bip39Entropy_eq_some_iff_full H hH idx e
 
 /-- Electrum: the self-check of `_search_mnemonic` (`candidate == int(entropy_from(mnemonic_of(candidate)))`) holds
     for every candidate and every word-list length ≥ 2 (2048, and the 1626 of Electrum's Portuguese) -/
@@ -240,15 +243,79 @@ theorem dispatch_order (H : Bytes → Bytes) (n : Nat) (idx : List Nat) (el : Op
   unfold seedType allSeedTypes
   by_cases hb : b = "" <;> simp [hb]
 
-/-! ## T6 — end to end (partial)
+/-! ## T6 — end to end, both levels
 
-Full statement (not proved as one theorem): for every configuration (1..16 groups, thresholds), every selection
-meeting exactly the thresholds, in any order, `master_secret_from_mnemonics (select (mnemonics_from_master_secret ms))
-= ms`, and every other selection is refused.  Proved here: ONE level (encrypt, split, select any threshold subset in
-any order, recover, decrypt) over btclib's arithmetic and any round function / digest; the word codec is T5, the
-refusals are `slip39_group_wrong_count_refused` / `slip39_group_count_refused`.  The composition of the two levels
-inside `_grouped` (dictionary grouping) is tied by correspondence (`slip39.master` stream) and by the `slip39.set`
-oracle on all selections of small configurations. -/
+`master_secret_from_mnemonics (select (mnemonics_from_master_secret ms)) = ms` at decoded-share level: the table
+`makeShares` is what `mnemonics_from_master_secret` builds (every string the entropy source hands out a parameter),
+`recoverEms` is `_common_field` + `_grouped` + the group-level `_recover_secret`.  The word codec between the two
+is T5 (`slip39_share_codec_roundtrip`); the refusals are `slip39_group_wrong_count_refused` /
+`slip39_group_count_refused`. -/
+
+/-- over ANY field and any digest: every selection of shares meeting the group threshold and each chosen group's
+    member threshold EXACTLY, in ANY order, recovers the encrypted master secret (thresholds 1 included) -/
+theorem slip39_two_level_recovers {F : Type} [Field F] [DecidableEq F] {o : FOps F}
+    (L : FLawful o) (hx : XInj o) (digest : List F → List F → List F)
+    (hdl : ∀ rp s, (digest rp s).length = Gen.Slip39.DIGEST_BYTES)
+    (identifier : Nat) (extendable : Bool) (e gt : Nat) (groups : List (Nat × Nat)) (ems : List F)
+    (groupRnd : List (List F)) (groupRp : List F) (memberRnd : Nat → List (List F)) (memberRp : Nat → List F)
+    (hgr : 2 ≤ gt → groupRnd.length = gt - 2 ∧ (∀ r ∈ groupRnd, r.length = ems.length) ∧
+      groupRp.length + Gen.Slip39.DIGEST_BYTES = ems.length)
+    (hmr : ∀ g, g < groups.length → 2 ≤ (groups.getD g (0, 0)).1 →
+      (memberRnd g).length = (groups.getD g (0, 0)).1 - 2 ∧ (∀ r ∈ memberRnd g, r.length = ems.length) ∧
+      (memberRp g).length + Gen.Slip39.DIGEST_BYTES = ems.length)
+    {table : List (List (Share F))}
+    (h : makeShares o digest identifier extendable e gt groups ems groupRnd groupRp memberRnd memberRp = .ok table)
+    (sel : List (Nat × Nat)) (hne : sel ≠ []) (hnd : sel.Nodup)
+    (hrange : ∀ p ∈ sel, p.1 < groups.length ∧ p.2 < (groups.getD p.1 (0, 0)).2)
+    (hgroups : (sel.map (·.1)).eraseDups.length = gt)
+    (hmembers : ∀ g ∈ sel.map (·.1), (sel.filter (·.1 = g)).length = (groups.getD g (0, 0)).1) :
+    ∃ picked, sel.mapM (pick table) = some picked ∧ recoverEms o digest picked = .ok ems :=
+  recoverEms_makeShares_exists L hx digest hdl identifier extendable e gt groups ems groupRnd groupRp memberRnd
+    memberRp hgr hmr h sel hne hnd hrange hgroups hmembers
+
+/-- the same on btclib's arithmetic, with encryption and decryption around it: for ANY round function (passphrase,
+    iteration exponent, identifier, flag) and any HMAC, the selection decrypts back to the master secret -/
+theorem slip39_end_to_end (F : Nat → Bytes → Bytes) (hF : ∀ i r, (F i r).length = r.length)
+    (hm : Bytes → Bytes → Bytes) (hhm : ∀ k m, Gen.Slip39.DIGEST_BYTES ≤ (hm k m).length)
+    (ms : Bytes) (hms : ms.length % 2 = 0)
+    (identifier : Nat) (extendable : Bool) (e gt : Nat) (groups : List (Nat × Nat))
+    (groupRnd : List (List GF256)) (groupRp : List GF256)
+    (memberRnd : Nat → List (List GF256)) (memberRp : Nat → List GF256)
+    (hgr : 2 ≤ gt → groupRnd.length = gt - 2 ∧ (∀ r ∈ groupRnd, r.length = ms.length) ∧
+      groupRp.length + Gen.Slip39.DIGEST_BYTES = ms.length)
+    (hmr : ∀ g, g < groups.length → 2 ≤ (groups.getD g (0, 0)).1 →
+      (memberRnd g).length = (groups.getD g (0, 0)).1 - 2 ∧ (∀ r ∈ memberRnd g, r.length = ms.length) ∧
+      (memberRp g).length + Gen.Slip39.DIGEST_BYTES = ms.length) :
+    ∃ ems, feistel F ms false = some ems ∧
+      ∀ table, makeShares gf256Ops (digestGF hm) identifier extendable e gt groups (ems.map GF256.ofByte)
+          groupRnd groupRp memberRnd memberRp = .ok table →
+        ∀ sel : List (Nat × Nat), sel ≠ [] → sel.Nodup →
+          (∀ p ∈ sel, p.1 < groups.length ∧ p.2 < (groups.getD p.1 (0, 0)).2) →
+          (sel.map (·.1)).eraseDups.length = gt →
+          (∀ g ∈ sel.map (·.1), (sel.filter (·.1 = g)).length = (groups.getD g (0, 0)).1) →
+          ∃ picked r, sel.mapM (pick table) = some picked ∧
+            recoverEms gf256Ops (digestGF hm) picked = .ok r ∧ feistel F (r.map GF256.toByte) true = some ms := by
+  obtain ⟨ems, he, hl, hd⟩ := Btc.C13.feistel_decrypt_encrypt F hF ms hms
+  refine ⟨ems, he, ?_⟩
+  intro table ht sel hne hnd hrange hgroups hmembers
+  have hdl : ∀ rp s, (digestGF hm rp s).length = Gen.Slip39.DIGEST_BYTES := by
+    intro rp s
+    simp only [digestGF, digestWith, List.length_map, List.length_take]
+    exact Nat.min_eq_left (hhm _ _)
+  have hlen : (ems.map GF256.ofByte).length = ms.length := by simp [hl]
+  obtain ⟨picked, hp, hr⟩ := recoverEms_makeShares_exists gf256Ops_lawful gf256Ops_xinj (digestGF hm) hdl
+    identifier extendable e gt groups (ems.map GF256.ofByte) groupRnd groupRp memberRnd memberRp
+    (by rw [hlen]; exact hgr) (by rw [hlen]; exact hmr) ht sel hne hnd hrange hgroups hmembers
+  refine ⟨picked, ems.map GF256.ofByte, hp, hr, ?_⟩
+  have : (ems.map GF256.ofByte).map GF256.toByte = ems := by
+    rw [List.map_map]
+    conv => rhs; rw [← List.map_id ems]
+    apply List.map_congr_left
+    intro b _
+    simp [GF256.toByte, GF256.ofByte]
+  rw [this]; exact hd
+
+/-- one level only (kept: the statement the first wave proved) -/
 theorem slip39_one_level_end_to_end_partial (F : Nat → Bytes → Bytes) (hF : ∀ i r, (F i r).length = r.length)
     (hm : Bytes → Bytes → Bytes) (ms : Bytes) (hms : ms.length % 2 = 0) {t n : Nat} (h2 : 2 ≤ t)
     (rnd : List (List GF256)) (rp : List GF256) (hlen : rnd.length = t - 2)
